@@ -238,7 +238,129 @@ def check_C16(chk):
                   replay_filter={"GvParse", "GvCmp"}, maxlen=6 if chk.tier == "thorough" else 5)
 
 
+def check_C17(chk):
+    """PTH and SMX files round-trip and their parsers withstand any input."""
+    thorough = chk.tier == "thorough"
+    chk.rule = ("TLC enumerates file shapes (PTH 0..3 nodes; SMX <= 2 objects x <= 2 points x <= 2 triangles x <= 2 checkpoints; thorough one more of "
+                "each) x every cut point, and every hostile count (-1, -2^31, 2^31-1, one more than present) in every count position whose verdict does "
+                "not depend on the payload, with the verdict of LfsFiles. The harness materialises each image (seeded payload with NaN / infinity bit "
+                "patterns), runs the real parsers under a counting allocator and compares verdict, peak allocation against MaxAlloc, write-back bytes "
+                "and re-parse; from_file / from_pathbuf on temporary files (sampled); 20000 mutated / random images for totality and the bound.")
+    c = {"MaxNodes": "= 4" if thorough else "= 3", "MaxObjs": "= 2", "MaxElems": "= 3" if thorough else "= 2", "MaxCps": "= 2"}
+    cfg = write_cfg("c17_gen", "Spec", c)
+    r = tlc("MC_Files", cfg, "c17_gen", workers=1, timeout=1500, coverage=False, env={"JAVA_TOOL_OPTIONS": "-Xss1g"})
+    if r.violated:
+        raise ToolError(f"MC_Files: {r.violated}")
+    nd = os.path.join(WORK, "c17_gen.ndjson")
+    n = extract_emitted(r.out_path, nd, tag="FILE")
+    chk.add_tlc("c17_gen", r)
+    chk.states += n
+    chk.transitions += n
+    log(f"[tlc] c17_gen: {n} file cases ({r.wall:.0f}s)")
+    outp = nd + ".replay.out"
+    harness(["files-replay", "--in", nd, "--seed", str(chk.seed)], stdout_path=outp)
+    summary = None
+    with open(outp) as f:
+        for line in f:
+            v = json.loads(line)
+            if "summary" in v:
+                summary = v["summary"]
+            elif "harness_error" in v:
+                raise ToolError(v["harness_error"])
+            elif "mismatch" in v:
+                cs = v["case"]
+                key = f"files:{cs.get('fmt')}:{(cs.get('hostile') or {}).get('pos', 'mutated')}:{(cs.get('hostile') or {}).get('how', '')}:" + norm_key(v["mismatch"])
+                chk.violation(key, v["mismatch"], {"kind": "file-case", "case": cs, "seed": v.get("seed", 1)})
+    if summary is None:
+        raise ToolError("files-replay printed no summary")
+    chk.traces += summary["cases"] + summary["mutated"]
+    chk.extra["replay"] = summary
+    with open(nd) as f:
+        for i, line in enumerate(f):
+            b = json.loads(line)
+            chk.case(b)
+            if i in (3, 200, 30000):
+                chk.sample(b)
+    log(f"[files-replay] {summary}")
+    chk.exhaustive = True
+    chk.assumptions += ["allocation is bounded by measurement (counting global allocator), not by proof; 'one more than present' counts are only placed where the over-read must hit the end of the file"]
+
+
+def check_C18(chk):
+    """The handshake carries exactly the configured connection options."""
+    thorough = chk.tier == "thorough"
+    chk.rule = ("LfsBuilder: every public setter is an action; TLC explores all setter sequences up to length 6 (state graph, history hidden) checking "
+                "that the handshake is one well-formed ISI frame, and emits every sequence of length <= 2 (quick) / 3 (thorough) plus seeded simulated "
+                "sequences of length <= 12 with IsiOf and Handshake. The real Builder replays each sequence: isi() is projected and compared (a panic is "
+                "a violation), and connect_blocking / connect_async run against a loopback TCP listener / UDP socket: the bytes received must be "
+                "exactly Handshake and nothing more.")
+    cfg = write_cfg("c18_mc", "Spec", {"MaxCalls": "= 7" if thorough else "= 6", "Emit": "= FALSE"}, invariants=["TypeOK", "HandshakeOk"], view="view")
+    r = tlc("LfsBuilder", cfg, "c18_mc", workers=8, timeout=1500)
+    if r.violated:
+        raise ToolError(f"LfsBuilder violates {r.violated}")
+    chk.add_tlc("c18_mc", r, needs_actions=("SetFlag", "UseUdp", "SetMode"))
+    log(f"[tlc] c18_mc: {r.distinct} distinct states ({r.wall:.0f}s)")
+    total = 0
+    for name, consts, sim in (("c18_emit", {"MaxCalls": "= 3" if thorough else "= 2", "Emit": "= TRUE"}, None),
+                              ("c18_sim", {"MaxCalls": "= 12", "Emit": "= TRUE"}, f"num={4000 if thorough else 300}")):
+        cfg = write_cfg(name, "Spec", consts, invariants=["TypeOK", "HandshakeOk", "EmitInv"])
+        r = tlc("LfsBuilder", cfg, name, workers=1, timeout=1500, coverage=False, simulate=sim, seed=chk.seed, env={"JAVA_TOOL_OPTIONS": "-Xss1g"})
+        if r.violated:
+            raise ToolError(f"LfsBuilder violates {r.violated}")
+        nd = os.path.join(WORK, name + ".ndjson")
+        n = extract_emitted(r.out_path, nd, tag="BUILD")
+        chk.add_tlc(name, r)
+        log(f"[tlc] {name}: {n} behaviours ({r.wall:.0f}s)")
+        outp = nd + ".replay.out"
+        stride = 1 if (thorough or name == "c18_emit") else 3
+        harness(["builder-replay", "--in", nd, "--connect-stride", str(4 if (name == "c18_emit" and not thorough) else stride)], stdout_path=outp, timeout=3000)
+        summary = None
+        with open(outp) as f:
+            for line in f:
+                v = json.loads(line)
+                if "summary" in v:
+                    summary = v["summary"]
+                elif "mismatch" in v:
+                    cs = v["case"]
+                    sig = f"{cs['proto']}:local={cs['local']}:" + norm_key(v["mismatch"])
+                    chk.violation("builder:" + sig, v["mismatch"], {"kind": "builder-case", "case": cs})
+        if summary is None:
+            raise ToolError("builder-replay printed no summary")
+        chk.traces += summary["behaviours"]
+        chk.extra.setdefault("replay", []).append(summary)
+        with open(nd) as f:
+            for i, line in enumerate(f):
+                b = json.loads(line)
+                chk.case(b)
+                if i in (1, 500):
+                    chk.sample({"calls": b["calls"], "isi": b["isi"], "proto": b["proto"], "mode": b["mode"]})
+        total += n
+        log(f"[builder-replay] {summary}")
+    chk.assumptions += ["the relay transport (DNS + Internet) is not exercised; the local UDP port is chosen by the harness and substituted for LocalPort"]
+
+
 def replay_case(case):
+    if case["kind"] == "builder-case":
+        os.makedirs(WORK, exist_ok=True)
+        nd = os.path.join(WORK, "replay_case_builder.ndjson")
+        open(nd, "w").write(json.dumps(case["case"]) + "\n")
+        out = harness(["builder-replay", "--in", nd])
+        bad = [json.loads(l) for l in out.splitlines() if '"mismatch"' in l]
+        for b in bad:
+            print("MISMATCH:", b["mismatch"])
+        return 1 if bad else 0
+    if case["kind"] == "file-case":
+        os.makedirs(WORK, exist_ok=True)
+        nd = os.path.join(WORK, "replay_case_file.ndjson")
+        if "image" in case["case"]:
+            print("mutated image stored in the replay file; re-run bin/check C17 with VERIF_SEED=%s" % case.get("seed", 1))
+            return 1
+        open(nd, "w").write(json.dumps(case["case"]) + "\n")
+        out = harness(["files-replay", "--in", nd, "--seed", str(case.get("seed", 1))])
+        bad = [l for l in out.splitlines() if '"mismatch"' in l and '"case":{"fmt"' in l and '"image"' not in l]
+        for b in bad:
+            print("MISMATCH:", json.loads(b)["mismatch"])
+        return 1 if bad else 0
     if case["kind"] == "values-trace":
         os.makedirs(WORK, exist_ok=True)
         ip = os.path.join(WORK, "replay_case_values_in.ndjson")
